@@ -8,6 +8,7 @@ import (
 	"fmt"
 	"net"
 	"net/http"
+	"strings"
 	"time"
 
 	"github.com/aukilabs/go-tooling/pkg/logs"
@@ -79,6 +80,8 @@ type World struct {
 	// DecorateHandler, if set, wraps each connection's handler (innermost
 	// RealtimeHandler given) before the prod decoration; used by oracles.
 	finished bool
+	// DaemonLabels: label prefixes of process-wide worker threads.
+	DaemonLabels []string
 }
 
 // New creates a world and installs its scheduler as the active one.
@@ -92,6 +95,7 @@ func New(cfg Config, ch vrt.Chooser) *World {
 	w.Store = &models.SessionStore{DiscoveryService: discovery{}}
 	w.ReceiptChan = make(chan ncsclient.ReceiptPayload, cfg.ReceiptCap)
 	w.Ctx, w.Cancel = context.WithCancel(context.Background())
+	w.DaemonLabels = []string{"receipt.ReceiptHandler.HandleReceipts", "receipt-start"}
 	return w
 }
 
@@ -398,17 +402,32 @@ func (w *World) Finish() (left []Leftover) {
 		}
 	}
 	w.S.RunQuiescent()
-	// server shutdown for process-wide workers (receipt forwarder)
+	// threads that should have finished by now: everything except process-wide
+	// workers, which legitimately live until server shutdown
+	isDaemon := func(label string) bool {
+		for _, d := range w.DaemonLabels {
+			if strings.HasPrefix(label, d) {
+				return true
+			}
+		}
+		return false
+	}
 	stuck := w.S.Live()
 	for _, t := range stuck {
-		left = append(left, Leftover{t.Label, t.Describe()})
+		if !isDaemon(t.Label) {
+			left = append(left, Leftover{t.Label, t.Describe()})
+		}
 	}
-	if len(stuck) > 0 {
-		w.Cancel()
+	// server shutdown: process-wide workers must end now
+	w.Cancel()
+	if len(left) == 0 {
 		w.S.RunQuiescent()
+		for _, t := range w.S.Live() {
+			left = append(left, Leftover{t.Label, "after server shutdown: " + t.Describe()})
+		}
+	}
+	if len(w.S.Live()) > 0 {
 		w.S.Abort()
-	} else {
-		w.Cancel()
 	}
 	w.S.Join()
 	vrt.S = nil
